@@ -244,15 +244,18 @@ func (a *Animation) DecodeFramesParallel() error {
 		close(results)
 	}()
 
+	// Report the error of the earliest failing frame, as DecodeFrames does:
+	// the order in which the workers finish must not decide the result.
 	var firstErr error
+	firstErrIdx := -1
 	for r := range results {
-		if r.err != nil && firstErr == nil {
-			firstErr = r.err
+		if r.err != nil {
+			if firstErrIdx < 0 || r.idx < firstErrIdx {
+				firstErr, firstErrIdx = r.err, r.idx
+			}
 			continue
 		}
-		if r.err == nil {
-			a.Frames[r.idx].Image = r.img
-		}
+		a.Frames[r.idx].Image = r.img
 	}
 	return firstErr
 }
